@@ -182,6 +182,128 @@ func runC49(c *Ctx) {
 	checkStarExhaustionAborts(c, r3)
 	c.Floor(r3, 5)
 
+	// In the star branch of the matcher the pattern index moves over the star itself, over further stars, and over the
+	// slash of a `*/` or `**/` boundary — nothing else: what follows is handed to the recursive call as the rest of the
+	// pattern. An index step taken for any other byte (a backslash, say) removes that byte from the rest: `*\?` then
+	// matches like `*?`. Every step of the index in that branch sits under a condition that compares a pattern byte
+	// with '*' or '/', except the first statement of the branch (the star itself).
+	const r5 = "star-branch-consumes-stars-and-slashes-only"
+	if dw := c.MustFunc(r5, gi+".dowild"); dw != nil {
+		c.Analysed(dw)
+		// the pattern index: the variable indexing the first parameter in the switch tag / comparisons
+		params := paramObjs(info, dw.Decl)
+		var clause *ast.CaseClause
+		ast.Inspect(dw.Decl.Body, func(n ast.Node) bool {
+			cc, ok := n.(*ast.CaseClause)
+			if !ok || clause != nil {
+				return true
+			}
+			for _, e := range cc.List {
+				if s, ok := constStr(e); ok && s == "42" {
+					clause = cc
+				}
+			}
+			return true
+		})
+		if clause == nil || len(params) == 0 {
+			c.Unresolved(r5, dw.Name()+":case '*'", dw.Decl.Pos(), "no case for '*' found")
+		} else {
+			// index variable: incremented in the first statement of the clause
+			var pi types.Object
+			if len(clause.Body) > 0 {
+				if inc, ok := clause.Body[0].(*ast.IncDecStmt); ok {
+					pi = objOf(info, inc.X)
+				}
+			}
+			if pi == nil {
+				c.Hold(r5, dw.Name(), clause.Pos(), "not decided: the star branch does not begin by stepping over the star")
+			} else {
+				k, bad := 0, token.NoPos
+				mentionsStarOrSlash := func(e ast.Expr) bool {
+					found := false
+					ast.Inspect(e, func(m ast.Node) bool {
+						if x, ok := m.(ast.Expr); ok {
+							if s, ok := constStr(x); ok && (s == "42" || s == "47") {
+								found = true
+							}
+						}
+						return !found
+					})
+					return found
+				}
+				var walk func(st ast.Stmt, conds []ast.Expr)
+				step := func(pos token.Pos, conds []ast.Expr) {
+					k++
+					ok := false
+					for _, cnd := range conds {
+						if mentionsStarOrSlash(cnd) {
+							ok = true
+						}
+					}
+					if !ok {
+						bad = pos
+					}
+				}
+				walk = func(st ast.Stmt, conds []ast.Expr) {
+					switch v := st.(type) {
+					case *ast.IncDecStmt:
+						if objOf(info, v.X) == pi {
+							step(v.Pos(), conds)
+						}
+					case *ast.AssignStmt:
+						for _, l := range v.Lhs {
+							if objOf(info, l) == pi {
+								step(v.Pos(), conds)
+							}
+						}
+					case *ast.IfStmt:
+						cs := append(conds[:len(conds):len(conds)], v.Cond)
+						for _, s := range v.Body.List {
+							walk(s, cs)
+						}
+						switch e := v.Else.(type) {
+						case *ast.BlockStmt:
+							for _, s := range e.List {
+								walk(s, cs)
+							}
+						case *ast.IfStmt:
+							walk(e, conds)
+						}
+					case *ast.ForStmt:
+						cs := conds
+						if v.Cond != nil {
+							cs = append(conds[:len(conds):len(conds)], v.Cond)
+						}
+						for _, s := range v.Body.List {
+							walk(s, cs)
+						}
+					case *ast.SwitchStmt:
+						for _, cl := range v.Body.List {
+							cc := cl.(*ast.CaseClause)
+							cs := conds
+							for _, e := range cc.List {
+								cs = append(cs[:len(cs):len(cs)], e)
+							}
+							for _, s := range cc.Body {
+								walk(s, cs)
+							}
+						}
+					case *ast.BlockStmt:
+						for _, s := range v.List {
+							walk(s, conds)
+						}
+					}
+				}
+				for _, st := range clause.Body[1:] {
+					walk(st, nil)
+				}
+				c.Check(!bad.IsValid(), r5, dw.Name()+":case '*'", orPos(bad, clause.Pos()), orStr(ifStr(bad.IsValid(), "the pattern index is stepped in the star branch under a condition that tests neither '*' nor '/': the byte stepped over (an escaping backslash) is missing from the rest of the pattern handed to the recursive call, so the escape is lost (`*\\?` matches like `*?`)"),
+					itoa(k)+" steps of the pattern index in the star branch, all over stars or a boundary slash"))
+			}
+		}
+	}
+	c.Floor(r5, 1)
+
 	// comment-rule: the '#' test is on the raw line
 	const r4 = "comment-rule"
 	if rf := c.MustFunc(r4, gi+".readIgnoreFile"); rf != nil {
